@@ -182,6 +182,15 @@ def make_sequence(codec_features, pictures, *data_unit_patterns, **kwargs):
         "auxiliary_data": make_auxiliary_data_unit,
         "padding_data": make_padding_data_unit,
     }
+    # The patterns may only be satisfied by inserting non-picture data units: we
+    # have no pictures other than the ones we were given
+    if [
+        data_unit_name
+        for data_unit_name in required_data_unit_names
+        if data_unit_name not in data_unit_makers
+    ] != picture_only_data_unit_names:
+        raise IncompatibleLevelAndDataUnitError(codec_features)
+
     if pictures_only_sequence["data_units"]:
         picture_parse_code = pictures_only_sequence["data_units"][0]["parse_info"][
             "parse_code"
